@@ -111,8 +111,9 @@ def one_run(hist, pool_names, off, inter, uni_kind='easy'):
             pass
     node = simnet.SimNode(net, 'N', '10.0.0.1', cs, disk=Disk())
     peers = []
-    for i in range(2):
-        p = simnet.Remote(net, node, host='5.5.5.%d' % (i + 1))
+    # (the third peer shares its address with the first: two nodes behind one address are two peers)
+    for i, host in enumerate(('5.5.5.1', '5.5.5.2', '5.5.5.1')):
+        p = simnet.Remote(net, node, host=host)
         p.hello(nonce=50 + i)
         peers.append(p)
     node.tick()
@@ -160,7 +161,7 @@ def one_run(hist, pool_names, off, inter, uni_kind='easy'):
         ipos = {('after-request', 0): 0, ('after-request', 1): 2, ('after-result', 0): 1}[ipos]
     cur = {'head': H}
     clock = H.ts + off
-    relay_count = [dict(), dict()]
+    relay_count = [dict() for _ in peers]
 
     def drain_peers():
         for i, p in enumerate(peers):
